@@ -195,6 +195,11 @@ def arbitrary_episode(ctx, case) -> None:
 
 def run(ctx) -> None:
     rng = ctx.rng
+    # guaranteed minimum, independent of the time budget
+    arbitrary_episode(ctx, {"kind": "arbitrary", "ns": [4, 3], "np_seed": rng.randint(0, 2**31 - 1)})
+    episode(ctx, {"n": 4, "generator": "noisy_factory", "computer": "superadditive_cached", "gap": "l1_norm", "seed": rng.randint(0, 10**6),
+                  "np_seed": rng.randint(0, 2**31 - 1), "budget": None, "episodes": 1, "scale": 1.0, "offset": 0.0,
+                  "direct_inner_steps": False, "blind_steps": True})
     i_arb = 0
     while not ctx.out_of_time(1.5):
         i_arb += 1
